@@ -12,7 +12,7 @@ Nears == {1, 2, 4}
 Fars == {2, 4, 8, 16}
 Coords == -4..4
 Sets == {[op |-> "set", a |-> <<n, f, l, r, t, b, o>>] : n \in Nears, f \in Fars, l \in {-4, -2, -1, 0}, r \in {1, 2, 4}, t \in {1, 2, 3}, b \in {-4, -1, 0}, o \in {0, 1}}
-Starts == {Fr(1, 4, -2, 2, 1, -1, FALSE), Fr(2, 8, -4, 0, 4, 0, FALSE), Fr(1, 2, -1, 3, 2, -2, TRUE), Fr(4, 16, 0, 4, 4, -4, TRUE)}
+Starts == {Fr(0, 4, -2, 2, 1, -1, TRUE), Fr(-2, 2, -1, 1, 2, 0, TRUE), Fr(1, 4, -2, 2, 1, -1, FALSE), Fr(2, 8, -4, 0, 4, 0, FALSE), Fr(1, 2, -1, 3, 2, -2, TRUE), Fr(4, 16, 0, 4, 4, -4, TRUE)}
 Halves == -2..2                                                \* screen coordinate k/2
 Ops(G) == RandomSubset(3, {x \in Sets : x.a[1] < x.a[2]})
           \cup {[op |-> "ortho", a |-> <<o>>] : o \in {0, 1}}
@@ -21,9 +21,9 @@ Ops(G) == RandomSubset(3, {x \in Sets : x.a[1] < x.a[2]})
 Divides(d, x) == x % d = 0
 Apply(G, o) ==          \* the set of successor frusta (empty when the lattice cannot represent the result)
     CASE o.op = "set" -> {Fr(o.a[1], o.a[2], o.a[3], o.a[4], o.a[5], o.a[6], o.a[7] = 1)}
-      [] o.op = "ortho" -> {SetOrtho(G, o.a[1] = 1)}
+      [] o.op = "ortho" -> IF o.a[1] = 0 /\ G.n <= 0 THEN {} ELSE {SetOrtho(G, o.a[1] = 1)}
       [] o.op = "modnf" ->
-           IF G.o THEN {[G EXCEPT !.n = o.a[1], !.f = o.a[2]]}
+           IF G.o THEN {[G EXCEPT !.n = o.a[1], !.f = o.a[2]]}          \* (new near values are positive)
            ELSE IF \A x \in {G.l, G.r, G.t, G.b} : Divides(G.n, x * o.a[1])
                 THEN {Fr(o.a[1], o.a[2], (G.l * o.a[1]) \div G.n, (G.r * o.a[1]) \div G.n, (G.t * o.a[1]) \div G.n, (G.b * o.a[1]) \div G.n, FALSE)}
                 ELSE {}
